@@ -120,7 +120,7 @@ class TokShapes:
                 arity(1); return ("struct", [("start", arg(0, depth - 1)), ("end", arg(0, depth - 1))])
             if p.startswith("core::num::") and segs[-1] in NONZERO: arity(0); return ("struct", [(None, ("prim", NONZERO[segs[-1]]))])
             if p == "core::marker::PhantomData": return ("struct", [])
-            if p == "core::time::Duration": return ("struct", [("secs", ("prim", "U64")), ("nanos", ("prim", "U32"))])
+            if p == "core::time::Duration": return ("struct", [(None, ("prim", "U64")), (None, ("prim", "U32"))])
             raise ShapeError("unknown absolute path ::%s" % p)
         item = self.lookup(segs)
         if len(args) != len(item["params"]): raise ShapeError("%s applied to %d arguments but declares %d parameters" % (p, len(args), len(item["params"])))
